@@ -334,6 +334,9 @@ func (s *Sched) Sleep(d time.Duration) { s.Yield() }
 //go:norace
 func (s *Sched) IsTask() bool { return s.cur != nil }
 
+// Settle: see engine A. (Engine B runs no scenario that uses it.)
+func (s *Sched) Settle() {}
+
 //go:norace
 func (s *Sched) Lock(m *sync.Mutex) {
 	if s.aborted {
